@@ -142,13 +142,23 @@ def verifier_with_house_rule(rng, fcp):
     return v, f"house-rule:{cat}:position{position}:node{m}", count > 0
 
 
-def run_generate(name, fcp, out_dir, verifier=None):
+def run_generate(name, fcp, out_dir, verifier=None, warmup=None):
+    """warmup = (generator name, scratch directory): the same manager first generates, from the same parsed schema, with a plug-in that
+    registers no checks of its own (nop, cpp); what it found acceptable then must not decide the later, stricter generation."""
     from fcp.codegen import GeneratorManager
     from fcp.verifier import make_general_verifier
     import contextlib, io
     with Capture(name) as cap, contextlib.redirect_stdout(io.StringIO()):
         try:
-            r = GeneratorManager(verifier or make_general_verifier()).generate(name, None, None, fcp, out_dir)
+            manager = GeneratorManager(verifier or make_general_verifier())
+            if warmup is not None:
+                try:
+                    manager.generate(warmup[0], None, None, fcp, warmup[1])
+                except SystemExit:
+                    raise
+                except Exception:
+                    pass
+            r = manager.generate(name, None, None, fcp, out_dir)
             res = "OROk" if r.is_ok() else "ORErr"
         except SystemExit:
             raise
@@ -166,7 +176,7 @@ def run(chk):
         "enumerator/impl, empty struct, unknown bound type, duplicate CAN id, missing service, oversize; first/middle/last position) or none, "
         "or - with no fault in the tree - a rejecting check registered through fcp.verifier.register in a random category at a random position "
         "among passing ones, rejecting a random node; "
-        "GeneratorManager(make_general_verifier()).generate run for dbc, can_c, cpp, nop on a pre-populated output directory (user files, and stale files of up to 200 kB at the output paths); result and the "
+        "GeneratorManager(make_general_verifier()).generate run for dbc, can_c, cpp, nop (in a third of the dbc/can_c runs after the same manager generated with nop or cpp from the same parsed schema) on a pre-populated output directory (user files, and stale files of up to 200 kB at the output paths); result and the "
         "directory before/after (names, contents, mtimes) observed; non-trivial = a fault was injected or files were written")
     cases, meta, fails = [], [], []
     ids = {}
@@ -217,7 +227,14 @@ def run(chk):
                 tterm = to_coq.ftree(fcp)
             except TypeError as e:
                 raise RuntimeError(f"tree outside the model: {e}")
-            res, cap = run_generate(name, fcp, out, house[0] if house else None)
+            warm = None
+            if house is None and name in ("dbc", "can_c") and chk.rng.random() < 0.3:      # (the house rules count their calls: one verification each)
+                warm = (chk.rng.choice(["nop", "cpp"]), os.path.join(work, f"w{k}"))
+                os.makedirs(warm[1])
+                chk.hist("warmup", warm[0])
+            res, cap = run_generate(name, fcp, out, house[0] if house else None, warmup=warm)
+            if warm is not None:
+                shutil.rmtree(warm[1], ignore_errors=True)
             after = snapshot(out)
             # what the plug-in returned (or would have returned / raised)
             if cap.returned is not None:
